@@ -23,6 +23,14 @@ FaultOK(base, f) ==
     /\ (f.sc.err.class = "none" => Same(f.sc, base))
     /\ (f.rd.err.class = "none" => Same(f.rd, base))
 
+(* an io.Reader that starts failing strictly inside the character k (which takes several bytes): the parser reaches the *)
+(* fault exactly when it reads that character, i.e. when the scanner fault at k is delivered                            *)
+InnerOK(base, fk, g) ==
+    /\ g.rd.panic = ""
+    /\ fk.sc.delivered => g.rd.erris
+    /\ ~fk.sc.delivered => Same(g.rd, base)
+    /\ (g.rd.err.class = "none" => Same(g.rd, base))
+
 Complete(rec) == /\ Len(rec.faults) = rec.len + 1
                  /\ \A i \in 1..Len(rec.faults) : rec.faults[i].k = i - 1
 =============================================================================
